@@ -3,6 +3,7 @@ import SqlObjVerif.Lemmas.EventsX
 import SqlObjVerif.Lemmas.EvMainXInit
 import SqlObjVerif.Lemmas.EvChainXModel
 import SqlObjVerif.Lemmas.EvSubXConns
+import SqlObjVerif.Lemmas.EvSubXEffective
 /-!
 # C19 — row events fire exactly once, in order around the database write; listener edits of the
 create / update kwargs are what gets stored; appended post-callbacks run after the operation;
@@ -511,6 +512,68 @@ example :
      | .ret w' _ _ => some (w'.conns.drop 2, w'.clones.map (·.1))
      | _ => none) = some ([(r1, sigVal .created, .cls 1, .bool true)], [.cls 0, .cls 1]) := by
   decide +kernel
+
+
+/-- **a declaration history gives every class exactly `Chain.effective` — on the translated source.**  `histW` is the
+    dispatcher's table after the top-down history: class 0 is declared, its early listeners are registered (translated
+    `listen`, `regAll`), class 1 is declared with base 0 (`subclassed` = the translated `_makeSubclassConnectionsPost`, by
+    `C19_translated_subclass_listeners_eq_model`: its run on that very table is the first conjunct), its early listeners, …,
+    class `L`; then every level's late listeners.  For every level `j ≤ L` the receivers connected for class `j`, in
+    connection order, are the early listeners of levels `0 … j-1` (root first), each ONCE, followed by level `j`'s own —
+    `Chain.effective ccfg j`.  Assumptions: classes are distinct objects, a listener is recovered from its `(receiver,
+    signal)` pair (`dec ∘ enc = toL`), the receivers are alive and truthy, and each level registers its early listeners
+    before its late ones (`EarlyFirst`). -/
+theorem C19_translated_effective_listeners_eq_model (ccfg : Chain.CCfg) (enc : Chain.CListener → PVal × PVal)
+    (dec : PVal × PVal → Listener) (alive : PVal → Bool) (clsV : Nat → PVal)
+    (hinj : ∀ a b, clsV a = clsV b → a = b) (hdec : ∀ l, dec (enc l) = Chain.toL l) (hal : ∀ l, alive (enc l).1 = true)
+    (htr : ∀ r, alive r = true → PyVer.pyBool r = true) (L : Nat) (hef : EarlyFirst ccfg L) :
+    (∀ k, subPostX [clsV k] alive (declare alive (earlyOf ccfg enc) clsV k) (clsV (k + 1))
+        = .ret (subclassed [clsV k] alive (declare alive (earlyOf ccfg enc) clsV k) (clsV (k + 1))) .none [clsV (k + 1)])
+    ∧ ∀ j, j ≤ L → (connsOf (histW ccfg enc alive clsV L) (clsV j)).map dec = Chain.effective ccfg j :=
+  ⟨fun k => subPostX_eq [clsV k] alive (clsV (k + 1)) htr _ (declare_wf alive _ clsV k),
+   fun j hj => effective_of_history ccfg enc dec alive clsV hinj hdec hal L hef j hj⟩
+
+/-- non-vacuity: a 3-level history — the root's early listener reaches the grandchild once, its late one does not -/
+example :
+    let ccfg : Chain.CCfg := [[⟨.created, .observe, true⟩, ⟨.update, .observe, false⟩], [⟨.created, .post 1, true⟩], [⟨.destroy, .observe, false⟩]]
+    let enc : Chain.CListener → PVal × PVal :=
+      fun l => (.obj "recv" (.nat (match l.act with | .post p => p + 1 | _ => 0)) .none, sigVal l.sig)
+    let clsV : Nat → PVal := fun j => .cls j
+    (connsOf (histW ccfg enc (fun _ => true) clsV 2) (clsV 2)).map (fun p => sigOf p.2)
+      = (Chain.effective ccfg 2).map (fun l => some l.sig)
+    ∧ (Chain.effective ccfg 2).map (·.sig) = [.created, .created, .destroy]
+    ∧ (connsOf (histW ccfg enc (fun _ => true) clsV 2) (clsV 0)).map (fun p => sigOf p.2) = [some .created, some .update] := by
+  decide +kernel
+
+/-- the class constants of level `j` when its listeners are READ OFF the dispatcher's table after the declaration history -/
+def clsOfHist (ccfg : Chain.CCfg) (enc : Chain.CListener → PVal × PVal) (dec : PVal × PVal → Listener) (alive : PVal → Bool)
+    (clsV : Nat → PVal) (base : Nat → Cfg) (L : Nat) (j : Nat) : Cfg :=
+  { base j with listeners := (connsOf (histW ccfg enc alive clsV L) (clsV j)).map dec }
+
+/-- **`C19_translated_created_after_all_levels` with the listener placement DISCHARGED**: the classes' listeners are what
+    the translated `listen` / `_makeSubclassConnectionsPost` left in the dispatcher's table after a top-down declaration
+    history (not an assumption about `Chain.effective`); then the translated outermost constructor of the class at depth `L`
+    logs exactly `Chain.createObj`, and every RowCreatedSignal comes after the INSERTs of all levels. -/
+theorem C19_translated_created_after_all_levels_history (fuel : Nat) (ccfg : Chain.CCfg)
+    (enc : Chain.CListener → PVal × PVal) (dec : PVal × PVal → Listener) (alive : PVal → Bool) (clsV : Nat → PVal)
+    (base : Nat → Cfg) (hinj : ∀ a b, clsV a = clsV b → a = b) (hdec : ∀ l, dec (enc l) = Chain.toL l)
+    (hal : ∀ l, alive (enc l).1 = true) (L : Nat) (hef : EarlyFirst ccfg L)
+    (hok : ChainOk (clsOfHist ccfg enc dec alive clsV base L) L) (hfuel : L + 1 < fuel)
+    (w : PyEv.World) (hcl : w.c = clsOfHist ccfg enc dec alive clsV base L L) (hlv : w.lvl = L) (ho : w.o = newObj)
+    (hpp : w.postponed = none) (hfresh : rowOf? w.rows w.nextId = none) :
+    ∃ w' lg, chainInitX fuel (clsOfHist ccfg enc dec alive clsV base L) L w = .ret w' .none ∧ w'.postponed = none
+      ∧ w'.log = w.log ++ lg ∧ lg.map convT = Chain.createObj ccfg w.nextId L
+      ∧ ∀ pre suf lv lis, lg.map convT = pre ++ Chain.CEntry.ev .created lv lis (some w.nextId) :: suf →
+          ∀ j, j ≤ L → Chain.CEntry.ins j w.nextId ∈ pre := by
+  obtain ⟨w', h1, h2, h3⟩ := chainInitX_run fuel _ L hok hfuel w hcl hlv ho hpp hfresh
+  have heq := chain_log_eq_le (clsOfHist ccfg enc dec alive clsV base L) ccfg w.nextId L
+    (fun j hj => effective_of_history ccfg enc dec alive clsV hinj hdec hal L hef j hj)
+  refine ⟨w', _, h1, h2, h3, heq, ?_⟩
+  intro pre suf lv lis hsplit j hj
+  rw [heq] at hsplit
+  have hrun : Chain.runCreates ccfg w.nextId [L] = pre ++ Chain.CEntry.ev .created lv lis (some (w.nextId + 0)) :: suf := by
+    simp [Chain.runCreates, hsplit]
+  exact C19_created_after_all_levels ccfg [L] w.nextId 0 (by simp) pre suf lv lis hrun j (by simpa using hj)
 
 /-! ### concrete runs of the translated `__init__` → `_create` → `set` → `_SO_finishCreate` → `_init` → postponed thunk, and of
 `_SO_setValue` (kernel evaluation of the translated programs: instances of `C19_translated_create_eq_model` /
